@@ -15,10 +15,12 @@ PlainButInfinite(v) ==
     [] v.k = "dict" -> \A i \in DOMAIN v.pairs : PlainButInfinite(v.pairs[i].key) /\ PlainButInfinite(v.pairs[i].val)
     [] OTHER -> IsPlain(v)
 
+Sig(e) == IF KnownKeyOfOtherKind(e.v) THEN "from_native.dict_key_of_another_kind" ELSE ""
+
 Verdict(e) ==
   IF HasForeign(e.v)
   THEN IF e.exc = "ValueError" THEN "OK"
-       ELSE IF e.exc = "" THEN "FAIL:non_plain_value_converted:"
+       ELSE IF e.exc = "" THEN "FAIL:non_plain_value_converted:" \o Sig(e)
        ELSE "FAIL:non_plain_value_wrong_exception:"
   \* an infinite float is a float: it must be converted (what the result accepts is left to C10's
   \* and C02's models of non-finite values)
